@@ -635,6 +635,10 @@ func runC04(ctx *vh.Ctx) error {
 		if err := json.Unmarshal(ctx.Replay, &kc); err == nil && kc.Kind == "keyval" {
 			return c04KeyOne(ctx, &kc)
 		}
+		var ec c04EiCase
+		if err := json.Unmarshal(ctx.Replay, &ec); err == nil && ec.Kind == "erritem" {
+			return c04EiOne(ctx, &ec)
+		}
 		var fc c04FmCase
 		if err := json.Unmarshal(ctx.Replay, &fc); err == nil && fc.Kind == "fmap" {
 			return c04FmOne(ctx, &fc)
@@ -654,6 +658,9 @@ func runC04(ctx *vh.Ctx) error {
 		return err
 	}
 	if err := c04FmFamily(ctx); err != nil {
+		return err
+	}
+	if err := c04EiFamily(ctx); err != nil {
 		return err
 	}
 	if err := c04WideFamily(ctx); err != nil {
